@@ -385,9 +385,18 @@ def run_property(mod, tier, seed, replay=None):
 
         handle_failures(cases, ev, 'generated')
         corr_only = sorted(i for i in ev['bad_corr'] if i not in ev['bad_prop'] and i not in ev['vac'])
-        if hasattr(mod, 'classify'):
-            corr_only = [i for i in corr_only
-                         if mod.classify(cases[i], ev['obs'][i]) not in open_known]
+        # a correspondence break that is explained by an open finding (the environment assumption the
+        # model relies on is exactly what the finding says the real environment violates) is not an alarm
+        cc = getattr(mod, 'classify_corr', None) or getattr(mod, 'classify', None)
+        if cc is not None:
+            keep = []
+            for i in corr_only:
+                fid = cc(cases[i], ev['obs'][i])
+                if fid in open_known:
+                    known_hits.setdefault(fid, (cases[i], ev['obs'][i]))
+                else:
+                    keep.append(i)
+            corr_only = keep
         need_search = (bool(proof_problems) or bool(corr_only)) and not violations and not replay
         search_eval = 0
         if need_search:
